@@ -54,6 +54,9 @@ type verifOp struct {
 	Op      string         `json:"op"`
 	Rec     *verifRecJSON  `json:"rec"`
 	Filters []*verifFilter `json:"filters"`
+	Name    string         `json:"name"`  // setkey
+	Names   []string       `json:"names"` // sort
+	Key     *verifFilter   `json:"key"`   // readone / deleteone: kind + val
 }
 
 type verifHistory struct {
@@ -183,6 +186,38 @@ func verifFromRec(r *verifRec) verifRecJSON {
 	return verifRecJSON{ID: r.ID.String(), Name: r.Name, Age: r.Age, Active: r.Active, Tags: tags, Raw: string(r.Raw)}
 }
 
+func verifValue(f *verifFilter) any {
+	switch f.Kind {
+	case "s":
+		var s string
+
+		_ = json.Unmarshal(f.Val, &s)
+
+		return s
+	case "i":
+		var i int
+
+		_ = json.Unmarshal(f.Val, &i)
+
+		return i
+	case "b":
+		var b bool
+
+		_ = json.Unmarshal(f.Val, &b)
+
+		return b
+	case "u":
+		var s string
+
+		_ = json.Unmarshal(f.Val, &s)
+		u, _ := uuid.Parse(s)
+
+		return u
+	}
+
+	return nil
+}
+
 func verifMakeFilters(r *ResHandle, fs []*verifFilter) []*Filter {
 	out := []*Filter{}
 
@@ -271,21 +306,27 @@ func TestVerifC30(t *testing.T) {
 
 		path := filepath.Join(dir, fmt.Sprintf("h%d.db", h.ID))
 
-		r, err := Open(verifRec{}, "verif_t", "sqlite://"+path)
-		if err != nil {
-			t.Fatalf("open: %v", err)
+		// a fresh handle on the database file, its connection swapped for one through the recording driver
+		openHandle := func() *ResHandle {
+			r, err := Open(verifRec{}, "verif_t", "sqlite://"+path)
+			if err != nil {
+				t.Fatalf("open: %v", err)
+			}
+
+			_ = r.Database.Close()
+
+			r.Database, err = sql.Open("verifrec30", path)
+			if err != nil {
+				t.Fatalf("open recording db: %v", err)
+			}
+
+			r.Database.SetMaxOpenConns(1)
+			verifTake()
+
+			return r
 		}
 
-		// same file, but through the recording driver
-		_ = r.Database.Close()
-
-		r.Database, err = sql.Open("verifrec30", path)
-		if err != nil {
-			t.Fatalf("open recording db: %v", err)
-		}
-
-		r.Database.SetMaxOpenConns(1)
-		verifTake()
+		r := openHandle()
 
 		outs := []verifOut{}
 
@@ -320,6 +361,28 @@ func TestVerifC30(t *testing.T) {
 						o.Rows = append(o.Rows, verifFromRec(it.(*verifRec)))
 					}
 				}
+			case "setkey":
+				r.SetPrimaryKey(op.Name)
+				o.Res = "ok"
+			case "sort":
+				r.Sort(op.Names...)
+				o.Res = "ok"
+			case "readone":
+				it, err := r.ReadOne(verifValue(op.Key))
+				if err != nil {
+					o.Res = "err"
+				} else {
+					o.Res = "rows"
+					o.Rows = append(o.Rows, verifFromRec(it.(*verifRec)))
+				}
+			case "updateone":
+				o.Res = verifErr(r.UpdateOne(op.Rec.toRec()))
+			case "deleteone":
+				o.Res = verifErr(r.DeleteOne(verifValue(op.Key)))
+			case "reopen":
+				_ = r.Database.Close()
+				r = openHandle()
+				o.Res = "ok"
 			default:
 				t.Fatalf("bad op %q", op.Op)
 			}
